@@ -48,6 +48,13 @@ def generate(tier, seed):
         arg = rng.choice(["(cons 5 tail)", "(cons 9 (cons 0 tail))", "(cdr tail)", "(nthcdr 2 tail)", "(append '(7 1) tail)", "(append tail nil)",
                           "(let ((tmp (cons 3 tail))) tmp)", "(mapcar '1+ tail)", "`(4 ,@tail)", "`(4 . ,tail)", "(funcall (lambda () (cons 2 tail)))"])
         reqs.append(["(setq tail %s)" % tl, "(setq keep tail)", "(sort %s %s)" % (arg, p), "tail", "(eq keep tail)", "(sort %s %s)" % (arg, p), "tail"])
+    for _ in range(40 if tier == "quick" else 800):
+        n = rng.randint(2, 9)
+        rows = "(" + " ".join("(" + " ".join(str(rng.randint(0, 9)) for _ in range(rng.randint(1, 4))) + ")" for _ in range(n)) + ")"
+        p = rng.choice(["(lambda (a b) (< (car (sort a '<)) (car (sort b '<))))", "(lambda (a b) (< (car (sort a '>)) (car (sort b '>))))",
+                        "(lambda (a b) (tick 1) (< (length (sort (append a b) '<)) 5))", "(lambda (a b) (equal (sort a '<) (sort a '<)))",
+                        "(lambda (a b) (< (car (sort (list (car a) (car b) 3) (lambda (p q) (< (car (sort (list p q) '<)) q)))) (car b)))"])
+        reqs.append(["(setq l '%s)" % rows, "(sort l %s)" % p, "l"])
     # erroring predicate at the k-th call
     for n in [2, 3, 5, 8]:
         xs = [rng.randint(0, 3) for _ in range(n)]
